@@ -69,7 +69,7 @@ def gen_C01(w, tier):
     n = 0
     big = tier == "thorough"
     for name, ps in w.ps.items():
-        if ps.toy:
+        if ps.toy or ps.base:
             continue
         reps = (14 if ps.kind == "ed" else 6) * (10 if big else 1)
         edges = w.edge_scalars(ps)
@@ -90,7 +90,7 @@ def gen_C01(w, tier):
             n += 1
     # toy groups: exhaustive scalar pairs for several password classes (w = 0 included when found)
     for name, ps in w.ps.items():
-        if not ps.toy:
+        if not ps.toy or ps.base:
             continue
         pws = toy_passwords(w, ps)
         q = ps.q
@@ -152,6 +152,8 @@ def gen_C03(w, tier):
                 return "key is not 32 bytes"
         return None
     for name, ps in w.ps.items():
+        if ps.base and ps.toy:
+            continue
         k = reps if not ps.toy else reps * 2
         if ps.kind == "int" and not ps.toy:
             k = max(2, k // 2)
@@ -190,4 +192,218 @@ def gen_C03(w, tier):
         sc.do("e.base %d %d" % (w.eid(), ps.gid))
         sc.do("g.sizes %d" % ps.gid)
     out.append(sc)
+    return out
+
+
+# ---------------------------------------------------------------------------------------
+# C02: any mismatch or tampering prevents agreement
+# ---------------------------------------------------------------------------------------
+def pwscalar(w, ps, pw):
+    return int(w.im.run("g.p2s %d %s" % (ps.gid, hx(pw))).split()[1])
+
+
+def pred_no_agreement(io, sc):
+    """the two ends were given different inputs or altered messages: equal keys are a violation,
+    except for the recorded degenerate classes (known findings), which are recognised *exactly*."""
+    m = sc.meta
+    if not m.get("started"):
+        return None
+    KA, KB = key_of(m["ka"]), key_of(m["kb"])
+    if KA is None or KB is None or KA != KB:
+        return None
+    q = m.get("q")
+    mm = m.get("mismatch")
+    x, y, wv = m["x"], m["y"], m.get("w")
+    if mm in ("blindM", "blindN", "blindS", "generator") and q:
+        cond = {"blindM": wv * y, "blindN": wv * x, "blindS": wv * (x + y), "generator": x * y}[mm] % q == 0
+        if cond:
+            return ("known", "K1a", "ends differing only in %s agree when the relevant scalar product is 0 mod q (x=%d y=%d w=%d)" % (mm, x, y, wv))
+    if mm == "sym-same-third" and m.get("sym") and m["mA"] == m["mB"]:
+        return ("known", "K1b", "two symmetric ends with equal scalars, same third message delivered to both")
+    return "ends with differing inputs/altered messages obtained EQUAL keys (%s): %s" % (mm, m["ka"])
+
+
+def gen_C02(w, tier):
+    r = w.rng
+    out = []
+    big = tier == "thorough"
+    n = [0]
+
+    def add(name, ps, sym, pw, ids, x, y, mismatch, **kw):
+        sc = exchange(w, "C02/%s/%d" % (name, n[0]), ps, sym, pw, ids, x, y, tags=("mismatch:" + mismatch, "set:" + ("toy" if ps.toy else ps.name)), **kw)
+        sc.meta.update(mismatch=mismatch, q=ps.q, w=pwscalar(w, ps, pw))
+        sc.pred = pred_no_agreement
+        out.append(sc)
+        n[0] += 1
+        return sc
+    mains = [ps for k, ps in w.ps.items() if not ps.base]
+    shipped = [ps for ps in mains if not ps.toy]
+    # ---- (1) field differences --------------------------------------------------------
+    for ps in shipped + [ps for ps in mains if ps.toy][:3]:
+        reps = 2 if (ps.kind == "int" and not ps.toy and not big) else 4
+        for i in range(reps * (5 if big else 1)):
+            sym = i % 2 == 1
+            x, y = w.scalar(ps), w.scalar(ps)
+            pw = w.password()
+            ids = (r.choice(IDS[1:]), r.choice(IDS[1:]))
+            other_pw = pw + b"x" if r.random() < 0.5 else (pw[:-1] if pw else b"\x00")
+            add(ps.name, ps, sym, pw, ids, x, y, "password", pwB=other_pw)
+            add(ps.name, ps, sym, pw, ids, x, y, "idA", idsB=(ids[0] + b"'", ids[1]))
+            if not sym:
+                add(ps.name, ps, sym, pw, ids, x, y, "idB", idsB=(ids[0], ids[1] + b"'"))
+                if ids[0] != ids[1]:
+                    add(ps.name, ps, sym, pw, ids, x, y, "ids-swapped", idsB=(ids[1], ids[0]))
+                add(ps.name, ps, False, pw, (b"ab", b"c"), x, y, "ids-concat", idsB=(b"a", b"bc"))
+    # different groups
+    for a_, b_ in (("ed", "1024"), ("1024", "2048"), ("3072", "2048")):
+        ps, psB = w.ps[a_], w.ps[b_]
+        add(a_ + "-" + b_, ps, False, b"pw", (b"", b""), w.scalar(ps), w.scalar(psB), "group", psB=psB)
+        add(a_ + "-" + b_, ps, True, b"pw", (b"", b""), w.scalar(ps), w.scalar(psB), "group", psB=psB)
+    # blinding element differs (same group)
+    for key, alt in w.ps.items():
+        if not alt.base:
+            continue
+        ps = w.ps[alt.base]
+        which = key[-1]
+        if ps.toy:
+            q = ps.q
+            pairs = [(x, y) for x in range(q) for y in range(q)]
+            if len(pairs) > (900 if big else 150):
+                pairs = r.sample(pairs, 900 if big else 150) + [(0, 0), (0, 1), (1, 0), (q - 1, 1)]
+            pws = toy_passwords(w, ps)[:3]
+        else:
+            pairs = [(0, 5), (5, 0), (1, ps.q - 1), (w.scalar(ps), w.scalar(ps)), (w.scalar(ps), w.scalar(ps))]
+            pws = [b"password", b""]
+        for pw in pws:
+            for (x, y) in pairs:
+                if which == "S":
+                    add(key, ps, True, pw, (b"", b""), x, y, "blindS", psB=alt)
+                else:
+                    add(key, ps, False, pw, (b"a", b"b"), x, y, "blind" + which, psB=alt)
+    # generator differs (toy groups with the same p, q and the same seeds)
+    g2, g4 = w.ps.get("toy23_11_2"), w.ps.get("toy23_11_4")
+    if g2 and g4 and g2.seeds == g4.seeds:
+        for pw in toy_passwords(w, g2)[:3]:
+            for x in range(11):
+                for y in range(11):
+                    add("generator", g2, False, pw, (b"", b""), x, y, "generator", psB=g4)
+    # ---- (2) in-flight tampering ------------------------------------------------------
+    def tam(f):
+        return lambda peer_msg, own_msg: f(peer_msg, own_msg)
+    ed = w.ps["ed"]
+    E = refmath_ed()
+    torsion = torsion_points(w)
+    specials = special_elements(w)
+    for ps in shipped + [w.ps[k] for k in ("toy2039_1019_4", "toyed389") if k in w.ps]:
+        is_ed = ps.kind == "ed"
+        es = ps.esize
+        flips = list(range(8 * (1 + es)))
+        if not (is_ed and not ps.toy):
+            flips = r.sample(flips, 24 if not big else 200)
+        elif not big:
+            flips = r.sample(flips, 96)
+        edits = []
+        for bit in flips:
+            edits.append(("bitflip", lambda m, o, bit=bit: m[:bit // 8] + bytes([m[bit // 8] ^ (1 << (bit % 8))]) + m[bit // 8 + 1:]))
+        for L_ in sorted(set([0, 1, 2, es // 2, es - 1, es] + ([r.randrange(es) for _ in range(6)] if big else []))):
+            edits.append(("truncate", lambda m, o, L_=L_: m[:L_]))
+        edits += [("extend-zero", lambda m, o: m + b"\x00"), ("extend-zero-many", lambda m, o: m + b"\x00" * es),
+                  ("extend-random", lambda m, o: m + bytes(r.randrange(256) for _ in range(3))),
+                  ("extend-dup", lambda m, o: m + m[1:]), ("extend-own", lambda m, o: m + o[1:]),
+                  ("prepend-zero", lambda m, o: m[:1] + b"\x00" + m[1:]),
+                  ("zero-body", lambda m, o: m[:1] + b"\x00" * es), ("ones-body", lambda m, o: m[:1] + b"\xff" * es)]
+        for sb in (0, 0x41, 0x42, 0x53, 0x43, 0xff):
+            edits.append(("sidebyte", lambda m, o, sb=sb: bytes([sb]) + m[1:]))
+        for nm, enc in specials.get(ps.name, []):
+            edits.append(("subst-" + nm, lambda m, o, enc=enc: m[:1] + enc))
+        if is_ed and not ps.toy:
+            for k, T in enumerate(torsion):
+                edits.append(("subst-torsion", lambda m, o, T=T: m[:1] + E.encode(T)))
+                edits.append(("add-torsion", lambda m, o, T=T: m[:1] + add_torsion(E, m[1:], T)))
+        for sym in (False, True):
+            for (nm, f) in edits:
+                if sym and nm == "sidebyte":
+                    continue
+                x, y = w.scalar(ps, 0.1), w.scalar(ps, 0.1)
+                pw = r.choice([b"pw", b"", b"password"])
+                if r.random() < 0.5:
+                    add(ps.name, ps, sym, pw, (b"a", b"b"), x, y, "tamper-" + nm, tamperB=f)
+                else:
+                    add(ps.name, ps, sym, pw, (b"a", b"b"), x, y, "tamper-" + nm, tamperA=f)
+        # both directions altered consistently: X*||Y* style framing attacks and message swaps
+        for sym in (False, True):
+            x, y = w.scalar(ps, 0), w.scalar(ps, 0)
+            add(ps.name, ps, sym, b"pw", (b"", b""), x, y, "tamper-both-concat",
+                tamperA=lambda m, o: m + m[1:], tamperB=lambda m, o: m + o[1:])
+            add(ps.name, ps, sym, b"pw", (b"", b""), x, y, "tamper-both-truncate",
+                tamperA=lambda m, o: m[:-1], tamperB=lambda m, o: m[:-1])
+        # another session's message
+        other = exchange(w, "C02/other", ps, False, b"other", (b"", b""), w.scalar(ps, 0), w.scalar(ps, 0), mode=NONE)
+        if other.meta.get("started"):
+            om = other.meta["mA"]
+            add(ps.name, ps, False, b"pw", (b"", b""), w.scalar(ps, 0), w.scalar(ps, 0), "tamper-other-session",
+                tamperB=lambda m, o: m[:1] + om[1:])
+        # symmetric: same third message to both ends; equal scalars is the recorded class K1b
+        for (x, y) in ((3, 3), (3, 4)):
+            third = specials.get(ps.name, [("", None)])
+            enc = dict(third).get("generator")
+            if enc:
+                add(ps.name, ps, True, b"pw", (b"", b""), x, y, "sym-same-third",
+                    tamperA=lambda m, o, enc=enc: b"S" + enc, tamperB=lambda m, o, enc=enc: b"S" + enc)
+    return out
+
+
+def refmath_ed():
+    Q = 2 ** 255 - 19
+    d = (-121665 * refmath.modinv(121666, Q)) % Q
+    return refmath.Edwards(Q, d)
+
+
+_TORSION = None
+
+
+def torsion_points(w=None):
+    """the 8 points of order dividing 8 on Ed25519 (computed with the harness' own arithmetic)"""
+    global _TORSION
+    if _TORSION is None:
+        import random as _r
+        E = refmath_ed()
+        L = 2 ** 252 + 27742317777372353535851937790883648493
+        rr = _r.Random(7)
+        while True:
+            P = E.random_point(rr)
+            T = E.mul(P, L)
+            if E.mul(T, 4) != (0, 1):
+                break
+        _TORSION = [E.mul(T, k) for k in range(8)]
+    return _TORSION
+
+
+def add_torsion(E, enc, T):
+    """encoding of (decoded point + T); falls back to the input if it does not decode"""
+    v = int.from_bytes(enc[:32], "little")
+    y = v & ((1 << 255) - 1)
+    xs = E.xs_for_y(y % E.Q)
+    if not xs:
+        return enc
+    x = [t for t in xs if (t & 1) == (v >> 255)] or xs
+    return E.encode(E.add((x[0], y % E.Q), T))
+
+
+def special_elements(w):
+    """encodings of identity, generator, M, N, S per parameter set (taken from the implementation)"""
+    out = {}
+    for name, ps in w.ps.items():
+        if ps.base:
+            continue
+        l = []
+        o = w.im.run("e.zero %d %d" % (w.eid(), ps.gid)); l.append(("identity", payload(o)))
+        o = w.im.run("e.base %d %d" % (w.eid(), ps.gid)); l.append(("generator", payload(o)))
+        if ps.seeds or not ps.toy:
+            seeds = ps.seeds or (b"M", b"N", b"symmetric")
+            for nm, sd in zip("MNS", seeds):
+                o = w.im.run("g.arb %d %s" % (ps.gid, hx(sd)))
+                if o.startswith("ok"):
+                    l.append((nm, payload(o)))
+        out[name] = l
     return out
